@@ -15,6 +15,13 @@ import CLModel.Proofs.C06Plural
 import CLModel.Proofs.C06Render
 import CLModel.Proofs.C06RCor
 import CLModel.Proofs.C06RPluralLex
+import CLModel.Proofs.C06Unesc
+import CLModel.Proofs.C06Grammar
+import CLModel.Proofs.C06PluralExact
+import CLModel.Proofs.C06Verdict
+import CLModel.Proofs.C06Pos
+import CLModel.Proofs.C06Gate
+import CLModel.Proofs.C06Disjoint
 namespace C06
 open PropCk Difflib
 open C06R (WfRender WfTok WfFmt Separated LoneOk IsSpec IsDig WShape PShape MixedR GapR rargs tokA sig kindOf
@@ -505,6 +512,503 @@ example : WfRenderP [.var 1, .text [32, 111, 102, 32], .var 22, .text [59]] := b
         rw [this] at hc; cases hc; rfl
       subst this; decide
 example : pluralVars rePlural (renderP [.var 1, .text [50]]) = some [12] ∧ varsOf [.var 1, .text [50]] = [1] := by
+  decide +kernel
+
+/-! # Round 4
+
+## 1. the lexer of `getPrintfSpecs` is EXACTLY the grammar of printf text (all values)
+
+`C06G.Lex p v ts` (Proofs/C06Grammar.lean) is an inductive grammar that mentions neither the regular expression
+nor the model: `v` is a sequence of non-`%` characters, tokens `Tokn` (`%%`, `%[n$][width][.prec]c` with
+`n = [1-9][0-9]*`, width `\*|[0-9]+`, precision `\.(\*|[0-9]+)?`, `c ∈ duxXosScpfg`) and lone `%`s, the latter
+only where no token starts.  `atoks v` is what `printf.finditer(v)` finds. -/
+
+open C06G (Lex Tokn NumPart HasTok) in
+/-- **soundness and completeness of the lexer against the grammar, for EVERY value**: the matches of
+    `printf.finditer(v)` are the tokens `ts` iff the grammar tokenises `v` as `ts`. -/
+theorem atoks_iff_lex (v : Text) (ts : List (Nat × ATok)) : atoks v = some ts ↔ Lex 0 v ts :=
+  ⟨C06G.lex_of_atoks, C06G.atoks_of_lex⟩
+
+open C06G (Lex) in
+/-- every value has exactly one tokenisation -/
+theorem lex_exists_unique (v : Text) : ∃ ts, Lex 0 v ts ∧ ∀ ts', Lex 0 v ts' → ts' = ts := by
+  obtain ⟨ts, h⟩ := C06G.lex_total v.length v (Nat.le_refl _) 0
+  exact ⟨ts, h, fun ts' h' => C06G.lex_unique h' h⟩
+
+open C06G (Lex) in
+/-- **`getPrintfSpecs v` is the closed form on the tokens of the grammar**, for every value (`specs_of_rendered`
+    without `WfRender`: "assembled values" replaced by "every value") -/
+theorem specs_of_lex (v : Text) (ts : List (Nat × ATok)) (h : Lex 0 v ts) :
+    WFToks ts ∧ getPrintfSpecs v = specsSpec ts := by
+  have ha := C06G.atoks_of_lex h
+  exact ⟨atoks_wf v ts ha, getPrintfSpecs_eq_spec v ts ha⟩
+
+open C06G (Lex) in
+/-- error classification on the grammar's tokens: `getPrintfSpecs` raises iff the tokenisation has a lone `%`,
+    mixes the styles, or leaves a gap; and only `PrintfException` -/
+theorem specs_error_iff_lex (v : Text) (ts : List (Nat × ATok)) (h : Lex 0 v ts) :
+    ((∃ e, getPrintfSpecs v = .error e) ↔ HasLone ts ∨ Mixed ts ∨ Gap ts) ∧
+    getPrintfSpecs v ≠ .error .other :=
+  specs_error_iff v ts (C06G.atoks_of_lex h)
+
+open C06G (Lex) in
+/-- the old rendered-value theorem is an instance: a `WfRender` token list IS a tokenisation by the grammar -/
+theorem rendered_lex (ts : List RTok) (h : WfRender ts) : Lex 0 (render ts) (expectedFrom 0 ts) :=
+  C06G.lex_of_atoks (atoks_render ts h)
+
+open C06G (Lex) in
+/-- `%%` and text never matter — for ALL values: two values whose tokenisations have the same sequence of lone-`%` /
+    argument tokens (`%%` dropped) have the same specifier list or the same kind of error -/
+theorem specs_lex_ignore_text_pct (v v' : Text) (ts ts' : List (Nat × ATok)) (h : Lex 0 v ts) (h' : Lex 0 v' ts')
+    (hsig : (ts.filter notPct).map (·.2) = (ts'.filter notPct).map (·.2)) :
+    kindOf (getPrintfSpecs v) = kindOf (getPrintfSpecs v') := by
+  rw [(specs_of_lex v ts h).2, (specs_of_lex v' ts' h').2, ← specsSpec_ignores_pct ts, ← specsSpec_ignores_pct ts']
+  exact C06R.specsSpec_kind_congr _ _ hsig
+
+open C06G (Lex) in
+/-- reordering ordered arguments never matters — for ALL values: if the tokens of `v'` are a permutation of those
+    of `v`, all of them `%%` or ordered arguments, the same number always with the same type, the results agree -/
+theorem specs_lex_reorder (v v' : Text) (ts ts' : List (Nat × ATok)) (h : Lex 0 v ts) (h' : Lex 0 v' ts')
+    (hperm : (ts.map (·.2)).Perm (ts'.map (·.2)))
+    (hord : ∀ t ∈ ts, t.2 = ATok.pct ∨ ∃ n sp, t.2 = ATok.arg (some n) sp)
+    (hcons : Consistent (argsOf ts)) : getPrintfSpecs v = getPrintfSpecs v' := by
+  rw [(specs_of_lex v ts h).2, (specs_of_lex v' ts' h').2]
+  exact specs_reorder ts ts' (specs_of_lex v ts h).1 hperm hord hcons
+
+/-! ## 2. from RAW values (what the file contains) to verdicts
+
+`uval raw` is the documented unescaping of a raw `.properties` value (`P.propsUnescapeSpec`, the C02
+specification: `\uXXXX`, line continuation, `\n \r \t \\`, any other `\c` is `c`); the unescape model inside
+`check` is total and equal to it (`C06U.unescape_eq_spec`, via C02's `propsVal_eq_spec`), so the hypotheses
+`unescape raw = some value` of `check_printf` / `plural_verdict` disappear. -/
+
+/-- `PropertiesEntity.val` of a raw value, by the documented rules -/
+abbrev uval (raw : Text) : Text := P.propsUnescapeSpec raw
+
+/-- the unescape model never raises and is the documented unescaping -/
+theorem unescape_total (raw : Text) : unescape raw = some (uval raw) := C06U.unescape_eq_spec raw
+
+/-- `check_printf` from raw values -/
+theorem check_printf_raw (e : Ents) (R : List (Option Text))
+    (hg : pluralGate e.refComment e.refKey (uval e.refRaw) = false)
+    (hR : getPrintfSpecs (uval e.refRaw) = .ok R) (hne : R ≠ []) :
+    ∃ pf, checkPrintf R (uval e.l10nRaw) = some pf ∧
+      check e = some (baseCheck e ++ escapeWarnings e.l10nRaw ++ pf) ∧
+      (hasError (baseCheck e ++ escapeWarnings e.l10nRaw ++ pf) ↔
+        (∃ msg pos, getPrintfSpecs (uval e.l10nRaw) = .error (.printf msg pos)) ∨
+        (∃ L, getPrintfSpecs (uval e.l10nRaw) = .ok L ∧ ¬ L <+: R)) :=
+  check_printf e _ _ R (unescape_total _) (unescape_total _) hg hR hne
+
+/-- `check_no_reference_args` from raw values -/
+theorem check_no_reference_args_raw (e : Ents)
+    (hg : pluralGate e.refComment e.refKey (uval e.refRaw) = false)
+    (hR : getPrintfSpecs (uval e.refRaw) = .ok [] ∨ ∃ err, getPrintfSpecs (uval e.refRaw) = .error err) :
+    check e = some (baseCheck e ++ escapeWarnings e.l10nRaw) :=
+  check_no_reference_args e _ _ (unescape_total _) (unescape_total _) hg hR
+
+/-- `plural_verdict` from raw values -/
+theorem plural_verdict_raw (e : Ents) (hg : pluralGate e.refComment e.refKey (uval e.refRaw) = true) :
+    ∃ known pats lpats, getPlural e.locale = some known ∧
+      pluralVars Gen.Pat.checks_properties_PropertiesChecker_check_plural_0 (uval e.refRaw) = some pats ∧
+      pluralVars Gen.Pat.checks_properties_PropertiesChecker_check_plural_1 (uval e.l10nRaw) = some lpats ∧
+      check e = some (baseCheck e ++ (formsVerdict known ((uval e.l10nRaw).count 59) ++ varsVerdict pats lpats)) :=
+  plural_verdict e _ _ (unescape_total _) (unescape_total _) hg
+
+/-- **`check` never raises, and it is exactly one of three things** (decided by the raw reference):
+    the plural verdict; encoding + escape warnings only (reference without well-formed arguments); or
+    encoding + escape warnings + the `checkPrintf` verdict. -/
+theorem check_trichotomy (e : Ents) :
+    (pluralGate e.refComment e.refKey (uval e.refRaw) = true ∧
+      ∃ pl, checkPlural e.locale (uval e.refRaw) (uval e.l10nRaw) = some pl ∧ check e = some (baseCheck e ++ pl)) ∨
+    (pluralGate e.refComment e.refKey (uval e.refRaw) = false ∧
+      (getPrintfSpecs (uval e.refRaw) = .ok [] ∨ ∃ err, getPrintfSpecs (uval e.refRaw) = .error err) ∧
+      check e = some (baseCheck e ++ escapeWarnings e.l10nRaw)) ∨
+    (pluralGate e.refComment e.refKey (uval e.refRaw) = false ∧
+      ∃ R pf, R ≠ [] ∧ getPrintfSpecs (uval e.refRaw) = .ok R ∧ checkPrintf R (uval e.l10nRaw) = some pf ∧
+        check e = some (baseCheck e ++ escapeWarnings e.l10nRaw ++ pf)) := by
+  cases hg : pluralGate e.refComment e.refKey (uval e.refRaw) with
+  | true =>
+    left
+    obtain ⟨known, pats, lpats, hk, hp, hlp, hc⟩ := plural_verdict_raw e hg
+    exact ⟨rfl, _, checkPlural_eq e.locale _ _ known pats lpats hk hp hlp, hc⟩
+  | false =>
+    right
+    cases hR : getPrintfSpecs (uval e.refRaw) with
+    | error err => exact Or.inl ⟨rfl, Or.inr ⟨err, rfl⟩, check_no_reference_args_raw e hg (Or.inr ⟨err, hR⟩)⟩
+    | ok R =>
+      cases R with
+      | nil => exact Or.inl ⟨rfl, Or.inl rfl, check_no_reference_args_raw e hg (Or.inl hR)⟩
+      | cons x xs =>
+        obtain ⟨pf, hpf, hc, _⟩ := check_printf_raw e (x :: xs) hg hR (by simp)
+        exact Or.inr ⟨rfl, x :: xs, pf, by simp, rfl, hpf, hc⟩
+
+theorem check_never_raises (e : Ents) : ∃ fs, check e = some fs := by
+  rcases check_trichotomy e with ⟨_, pl, _, h⟩ | ⟨_, _, h⟩ | ⟨_, R, pf, _, _, _, h⟩ <;> exact ⟨_, h⟩
+
+/-! ## 3. the verdict matrix: ONE decision theorem
+
+`specsVerdict R L` is `checkPrintf` after `l10nSpecs` is known (`checkPrintf_ok`).
+`isBad R op`  : `op` is a replace, an insert, or a delete that does not end at `len(refSpecs)`;
+`isWarn R op` : `op` is a delete that ends at `len(refSpecs)`.                                          -/
+
+/-- **`check_verdict_iff`**: for reference / localized specifier lists of ANY lengths `checkPrintf` never raises;
+    the severities it reports are `sevsOf R L ops` — `[error]?` then `[warning]?` — everything at offset 0, where
+    `ops` are the opcodes of the ported `SequenceMatcher` (a valid edit script):
+      error   ⇔ the lists differ and some opcode is a replace / an insert / a non-trailing delete,
+      warning ⇔ the lists differ and some opcode is a delete ending at `len(refSpecs)`,
+      nothing otherwise;
+    in closed form: error ⇔ `L` is not a prefix of `R`; `L = R` → nothing; `L` a proper prefix of `R` (trailing
+    reference arguments dropped) → exactly one warning; `R` a proper prefix of `L` (the localization extends the
+    reference's arguments) → exactly one error listing the additional arguments as obsolete. -/
+theorem check_verdict_iff (R L : List (Option Text)) :
+    ∃ ops fs, opcodes R L = some ops ∧ ValidOpcodes R L ops ∧ specsVerdict R L = some fs ∧
+      fs.map (·.sev) = sevsOf R L ops ∧ (∀ f ∈ fs, f.pos = .val 0 ∧ f.cat = .printf) ∧
+      (hasError fs ↔ R ≠ L ∧ ∃ op ∈ ops, isBad R op = true) ∧
+      (hasWarning fs ↔ R ≠ L ∧ ∃ op ∈ ops, isWarn R op = true) ∧
+      (hasError fs ↔ ¬ L <+: R) ∧
+      (L = R → fs = []) ∧
+      (∀ t, t ≠ [] → R = L ++ t → fs = [⟨.warning, .val 0, trailingMsg R L.length, .printf⟩]) ∧
+      (∀ t, t ≠ [] → L = R ++ t → fs = [⟨.error, .val 0, obsoleteListMsg L R.length, .printf⟩]) := by
+  obtain ⟨ops, fs, ho, hv, hs, hsev, hpos, hE, hW⟩ := specsVerdict_opcodes R L
+  obtain ⟨fs', hs', hE'⟩ := specsVerdict_error_iff R L
+  rw [hs] at hs'
+  cases hs'
+  refine ⟨ops, fs, ho, hv, hs, hsev, hpos, hE, hW, hE', ?_, ?_, ?_⟩
+  · rintro rfl
+    have := specsVerdict_equal L
+    rw [hs] at this
+    exact Option.some.inj this
+  · rintro t ht rfl
+    have := specsVerdict_trailing L t ht
+    rw [hs] at this
+    exact Option.some.inj this
+  · rintro t ht rfl
+    have := specsVerdict_obsolete R t ht
+    rw [hs] at this
+    exact Option.some.inj this
+
+/-- `checkPrintf` on a VALUE: the malformed-value error (at the offending offset), or the verdict of the two lists -/
+theorem printf_verdict_value (R : List (Option Text)) (v : Text) :
+    (∃ msg pos, getPrintfSpecs v = .error (.printf msg pos) ∧
+        checkPrintf R v = some [⟨.error, .val pos, msg, .printf⟩]) ∨
+    (∃ L, getPrintfSpecs v = .ok L ∧ checkPrintf R v = specsVerdict R L) := by
+  cases h : getPrintfSpecs v with
+  | error e =>
+    cases e with
+    | other => exact absurd h (getPrintfSpecs_not_other v)
+    | printf msg pos => exact Or.inl ⟨msg, pos, rfl, printf_malformed_error R v msg pos h⟩
+  | ok L => exact Or.inr ⟨L, rfl, checkPrintf_ok R L v h⟩
+
+/-- corollary (the fast-path regression `all(r == l for r, l in zip(refSpecs, l10nSpecs))` is excluded): a
+    localization whose arguments EXTEND the reference's is an error, never silent -/
+theorem verdict_extension_is_error (R t : List (Option Text)) (ht : t ≠ []) :
+    ∃ fs, specsVerdict R (R ++ t) = some fs ∧ hasError fs ∧ ¬ hasWarning fs := by
+  refine ⟨_, specsVerdict_obsolete R t ht, ⟨_, List.mem_singleton.mpr rfl, rfl⟩, ?_⟩
+  rintro ⟨f, hf, hs⟩
+  simp only [List.mem_singleton] at hf
+  subst hf
+  cases hs
+
+/-- corollary: dropping only trailing reference arguments is a warning and nothing else -/
+theorem verdict_trailing_is_warning (L t : List (Option Text)) (ht : t ≠ []) :
+    ∃ fs, specsVerdict (L ++ t) L = some fs ∧ hasWarning fs ∧ ¬ hasError fs := by
+  refine ⟨_, specsVerdict_trailing L t ht, ⟨_, List.mem_singleton.mpr rfl, rfl⟩, ?_⟩
+  rintro ⟨f, hf, hs⟩
+  simp only [List.mem_singleton] at hf
+  subst hf
+  cases hs
+
+open C06G (Lex) in
+/-- corollary (reordering with explicit positions is fine): a localized value whose tokens are a permutation of
+    the reference value's — `%%` and ordered arguments, the same number always with the same type — is silent,
+    whatever the text between the tokens -/
+theorem verdict_reorder_silent (refValue l10nValue : Text) (ts ts' : List (Nat × ATok)) (R : List (Option Text))
+    (h : Lex 0 refValue ts) (h' : Lex 0 l10nValue ts')
+    (hperm : (ts.map (·.2)).Perm (ts'.map (·.2)))
+    (hord : ∀ t ∈ ts, t.2 = ATok.pct ∨ ∃ n sp, t.2 = ATok.arg (some n) sp)
+    (hcons : Consistent (argsOf ts)) (hR : getPrintfSpecs refValue = .ok R) :
+    checkPrintf R l10nValue = some [] := by
+  have := specs_lex_reorder refValue l10nValue ts ts' h h' hperm hord hcons
+  exact printf_equal_silent R l10nValue (by rw [← this]; exact hR)
+
+/-- closed form (every argument retyped): reference and localization without a specifier in common, whatever their
+    lengths — exactly one error with one "should be" message per position of the shorter list, and NO warning even if
+    the localization has fewer arguments -/
+theorem verdict_all_retyped (R L : List (Option Text)) (hR : R ≠ []) (hL : L ≠ []) (hd : ∀ x ∈ R, x ∉ L) :
+    opcodes R L = some [⟨.replace, 0, R.length, 0, L.length⟩] ∧
+    specsVerdict R L = some [⟨.error, .val 0, replaceListMsg R L, .printf⟩] :=
+  ⟨Difflib.opcodes_disjoint R L hR hL hd, specsVerdict_disjoint R L hR hL hd⟩
+
+/-- the whole `check` from raw values on the printf branch, with the decision theorem plugged in -/
+theorem check_verdict_raw (e : Ents) (R L : List (Option Text))
+    (hg : pluralGate e.refComment e.refKey (uval e.refRaw) = false)
+    (hR : getPrintfSpecs (uval e.refRaw) = .ok R) (hne : R ≠ [])
+    (hL : getPrintfSpecs (uval e.l10nRaw) = .ok L) :
+    ∃ ops fs, opcodes R L = some ops ∧ specsVerdict R L = some fs ∧
+      check e = some (baseCheck e ++ escapeWarnings e.l10nRaw ++ fs) ∧
+      fs.map (·.sev) = sevsOf R L ops ∧ (hasError fs ↔ ¬ L <+: R) := by
+  obtain ⟨ops, fs, ho, _, hs, hsev, _, _, _, hE, _⟩ := check_verdict_iff R L
+  obtain ⟨pf, hpf, hc, _⟩ := check_printf_raw e R hg hR hne
+  rw [checkPrintf_ok R L _ hL, hs] at hpf
+  cases hpf
+  exact ⟨ops, fs, ho, hs, hc, hsev, hE⟩
+
+/-! ## 3b. the plural gate in closed form -/
+
+open C06Gate (NumericValue UDig) in
+/-- **the plural branch is taken iff** the comment contains `Localization_and_Plurals`, the key is not `pluralRule`,
+    and the reference value is NOT of the form: one or more Unicode decimal digits (`\d` = category Nd, regenerated
+    table) optionally followed by one final newline — `re.match(r"\d+$", refValue)` evaluated exactly, for every value
+    (`plural_gate` without the regular expression). -/
+theorem plural_gate_closed (refComment : Option Text) (refKey refValue : Text) :
+    pluralGate refComment refKey refValue = true ↔
+      (∃ c, refComment = some c ∧ sLocPlurals <:+: c) ∧ refKey ≠ sPluralRule ∧ ¬ NumericValue refValue := by
+  rw [plural_gate, C06Gate.gate_re_eq, ← C06Gate.numeric_iff]
+  cases Rx.matchAt refValue.toArray C06Gate.reNumeric 0 <;> simp
+
+/-! ## 4. plural: which rule applies to EVERY locale string, and the verdict as a function
+
+`C06P.ruleOf tbl` is `get_plural_rule` over ANY table (the shipped one is `Gen.Tables.categoriesByLocale`,
+regenerated from plurals.py on every run); `C06P.TableWf` is the well-formedness predicate. -/
+
+open C06P (ruleOf langOf sourceKey TableWf pluralOf formCountOf formsVerdictN LexP joinForms) in
+/-- the model's lookup is the generic one on the shipped table -/
+theorem plural_rule_lookup (locale : Option Text) :
+    getPluralRule locale = ruleOf Gen.Tables.categoriesByLocale locale := C06P.getPluralRule_eq locale
+
+open C06P (TableWf) in
+/-- **the shipped tables are well formed**: distinct locale keys, every rule index inside `CATEGORIES_BY_INDEX`,
+    every rule with at least one category (kernel evaluation over the regenerated data) -/
+theorem plural_table_wf : TableWf Gen.Tables.categoriesByLocale Gen.Tables.categoriesByIndex := by
+  decide +kernel
+
+open C06P (ruleOf langOf) in
+/-- **prefix lookup law, for EVERY locale string** `l`: the rule is `i` iff `l` itself is a key with value `i`, or
+    `l` is no key and its language subtag (the text before the first `-`) is a key with value `i` -/
+theorem plural_rule_iff (l : Text) (i : Nat) :
+    getPluralRule (some l) = some i ↔
+      (l, i) ∈ Gen.Tables.categoriesByLocale ∨
+      ((∀ j, (l, j) ∉ Gen.Tables.categoriesByLocale) ∧ (langOf l, i) ∈ Gen.Tables.categoriesByLocale) := by
+  rw [plural_rule_lookup]
+  exact C06P.rule_iff _ plural_table_wf.1 l i
+
+open C06P (ruleOf langOf) in
+/-- the same law over ANY table with distinct keys -/
+theorem plural_rule_iff_generic (tbl : List (Text × Nat)) (hnd : (tbl.map (·.1)).Nodup) (l : Text) (i : Nat) :
+    ruleOf tbl (some l) = some i ↔ (l, i) ∈ tbl ∨ ((∀ j, (l, j) ∉ tbl) ∧ (langOf l, i) ∈ tbl) :=
+  C06P.rule_iff tbl hnd l i
+
+open C06P (ruleOf) in
+/-- region subtags are irrelevant (any table): `lang-REST` that is not itself a key has the rule of `lang` -/
+theorem plural_rule_region (tbl : List (Text × Nat)) (lang rest : Text) (h : 45 ∉ lang)
+    (hk : tbl.lookup (lang ++ 45 :: rest) = none) :
+    ruleOf tbl (some (lang ++ 45 :: rest)) = ruleOf tbl (some lang) := C06P.rule_region tbl lang rest h hk
+
+open C06P (sourceKey) in
+/-- keys that contain `-` (`zh-CN`, `zh-TW`) are reached by the identical tag only (any table); in the shipped
+    table these are the only two such keys -/
+theorem plural_hyphen_keys :
+    (∀ (tbl : List (Text × Nat)) (l k : Text), sourceKey tbl l = some k → 45 ∈ k → l = k) ∧
+    (Gen.Tables.categoriesByLocale.filter (fun e => e.1.contains 45)).map (·.1) =
+      [[122, 104, 45, 67, 78], [122, 104, 45, 84, 87]] :=
+  ⟨fun tbl _ _ h hk => C06P.hyphen_key_exact tbl h hk, by decide +kernel⟩
+
+open C06P (TableWf pluralOf formCountOf ruleOf) in
+/-- over ANY well-formed table `get_plural` never raises, is `None` exactly for tags without a rule, and a known
+    rule has at least one form (`plural_lookup_total` / `plural_table_total` generically) -/
+theorem plural_lookup_wf (tbl : List (Text × Nat)) (idx : List (List Text)) (hwf : TableWf tbl idx)
+    (locale : Option Text) :
+    ∃ known, pluralOf tbl idx locale = some known ∧ known.map List.length = formCountOf tbl idx locale ∧
+      (known = none ↔ ruleOf tbl locale = none) ∧ (∀ cats, known = some cats → cats ≠ []) :=
+  C06P.pluralOf_wf hwf locale
+
+open C06P (LexP) in
+/-- **the `#n` variables of EVERY text**: both `re.finditer("#([0-9]+)", …)` calls of `check_plural` find exactly
+    the variable list of the grammar `LexP` (longest digit run after each `#`; no hypothesis on the text) -/
+theorem plural_vars_exact (v : Text) (ns : List Nat) :
+    (pluralVars Gen.Pat.checks_properties_PropertiesChecker_check_plural_0 v = some ns ↔ LexP v ns) ∧
+    (pluralVars Gen.Pat.checks_properties_PropertiesChecker_check_plural_1 v = some ns ↔ LexP v ns) :=
+  ⟨⟨C06P.lexP_of_pluralVars, C06P.pluralVars_of_lexP⟩, ⟨C06P.lexP_of_pluralVars, C06P.pluralVars_of_lexP⟩⟩
+
+open C06P (LexP) in
+theorem plural_vars_exist_unique (v : Text) : ∃ ns, LexP v ns ∧ ∀ ns', LexP v ns' → ns' = ns := by
+  obtain ⟨ns, h⟩ := C06P.lexP_total v.length v (Nat.le_refl _)
+  exact ⟨ns, h, fun ns' h' => C06P.lexP_unique h' h⟩
+
+open C06P (LexP joinForms) in
+/-- **variables per form**: the variables of `";".join(forms)` are the concatenation of the variables of the forms -/
+theorem plural_vars_per_form (forms : List (Text × List Nat)) (h : ∀ f ∈ forms, LexP f.1 f.2) :
+    LexP (joinForms (forms.map (·.1))) (forms.flatMap (·.2)) := C06P.lexP_join forms h
+
+open C06P (LexP formCountOf formsVerdictN) in
+/-- **the plural verdict as a function**, from raw values: for a plural string `check` returns the encoding warnings
+    followed by `formsVerdictN n s` — `n` the form count of the rule that applies to the locale (`none`: no rule),
+    `s` the number of `;` of the localized value: one warning iff `n = some k`, `k ≠ s + 1` — and
+    `varsVerdict pats lpats` of the `#n` variables (grammar `LexP`) of the two values. -/
+theorem plural_verdict_fn (e : Ents) (hg : pluralGate e.refComment e.refKey (uval e.refRaw) = true) :
+    ∃ pats lpats, LexP (uval e.refRaw) pats ∧ LexP (uval e.l10nRaw) lpats ∧
+      check e = some (baseCheck e ++
+        (formsVerdictN (formCountOf Gen.Tables.categoriesByLocale Gen.Tables.categoriesByIndex e.locale)
+            ((uval e.l10nRaw).count 59) ++ varsVerdict pats lpats)) := by
+  obtain ⟨known, pats, lpats, hk, hp, hlp, hc⟩ := plural_verdict_raw e hg
+  obtain ⟨known', hk', hcount, _, _⟩ := C06P.pluralOf_wf plural_table_wf e.locale
+  rw [C06P.getPlural_eq, hk'] at hk
+  cases hk
+  refine ⟨pats, lpats, C06P.lexP_of_pluralVars hp, C06P.lexP_of_pluralVars hlp, ?_⟩
+  rw [hc, C06P.formsVerdict_eq, hcount]
+
+/-! ## 5. where the findings point (export for C17) -/
+
+/-- **`C06.printf_pos_in_value`** (for C17: the hypothesis `vs + n ≤ s.size` of `check_pos_in_range_value` for the
+    properties checker, where `raw_val = s[vs:ve]`): every plain-int offset `n` that `PropertiesChecker.check` reports
+    lies inside the raw localized value, `n ≤ len(raw_val)`; and every `EntityPos(n)` lies inside `l10nEnt.all`. -/
+theorem printf_pos_in_value (e : Ents) (fs : List Finding) (h : check e = some fs) :
+    ∀ f ∈ fs, (∀ n, f.pos = .val n → n ≤ e.l10nRaw.length) ∧ (∀ n, f.pos = .ent n → n < e.l10nAll.length) := by
+  have hlen : (uval e.l10nRaw).length ≤ e.l10nRaw.length := C06Pos.unescape_len _ _ (unescape_total _)
+  have hbase : ∀ f ∈ baseCheck e, (∀ n, f.pos = .val n → n ≤ e.l10nRaw.length) ∧
+      (∀ n, f.pos = .ent n → n < e.l10nAll.length) := by
+    intro f hf
+    obtain ⟨n, hn, hc⟩ := C06Pos.base_pos e f hf
+    refine ⟨fun m hm => (by rw [hn] at hm; cases hm), fun m hm => ?_⟩
+    rw [hn] at hm
+    cases hm
+    exact (List.getElem?_eq_some_iff.mp hc).1
+  have hesc : ∀ f ∈ escapeWarnings e.l10nRaw, (∀ n, f.pos = .val n → n ≤ e.l10nRaw.length) ∧
+      (∀ n, f.pos = .ent n → n < e.l10nAll.length) := by
+    intro f hf
+    obtain ⟨n, hn, hc⟩ := C06Pos.esc_pos e.l10nRaw f hf
+    refine ⟨fun m hm => ?_, fun m hm => (by rw [hn] at hm; cases hm)⟩
+    rw [hn] at hm
+    cases hm
+    exact Nat.le_of_lt (List.getElem?_eq_some_iff.mp hc).1
+  rcases check_trichotomy e with ⟨_, pl, hpl, hc⟩ | ⟨_, _, hc⟩ | ⟨_, R, pf, _, _, hpf, hc⟩
+  · rw [hc] at h
+    cases h
+    intro f hf
+    rcases List.mem_append.mp hf with hf | hf
+    · exact hbase f hf
+    · obtain ⟨known, hk⟩ := plural_lookup_total e.locale
+      obtain ⟨pats, hp⟩ := pluralVars_total _ rfl (uval e.refRaw)
+      obtain ⟨lpats, hlp⟩ := pluralVars_total _ rfl (uval e.l10nRaw)
+      rw [checkPlural_eq e.locale _ _ known pats lpats hk hp hlp] at hpl
+      cases hpl
+      obtain ⟨h0, _⟩ := C06Pos.plural_pos known _ pats lpats f hf
+      refine ⟨fun m hm => ?_, fun m hm => ?_⟩
+      · rw [h0] at hm; cases hm; omega
+      · rw [h0] at hm; cases hm
+  · rw [hc] at h
+    cases h
+    intro f hf
+    rcases List.mem_append.mp hf with hf | hf
+    · exact hbase f hf
+    · exact hesc f hf
+  · rw [hc] at h
+    cases h
+    intro f hf
+    rcases List.mem_append.mp hf with hf | hf
+    · rcases List.mem_append.mp hf with hf | hf
+      · exact hbase f hf
+      · exact hesc f hf
+    · obtain ⟨_, n, hn, hcase⟩ := C06Pos.checkPrintf_pos R _ pf hpf f hf
+      refine ⟨fun m hm => ?_, fun m hm => (by rw [hn] at hm; cases hm)⟩
+      rw [hn] at hm
+      cases hm
+      rcases hcase with rfl | ⟨h1, _⟩
+      · omega
+      · omega
+
+/-- **the printf findings point at the offending `%`**: every finding of `checkPrintf` is at offset 0 (verdict of
+    the two lists, "Ordered argument missing") or at an offset `n < len(value)` with `value[n] = '%'` (the lone `%`,
+    the first argument of the other style) -/
+theorem printf_pos_points_at_pct (R : List (Option Text)) (v : Text) (fs : List Finding) (h : checkPrintf R v = some fs) :
+    ∀ f ∈ fs, f.cat = .printf ∧ ∃ n, f.pos = .val n ∧ (n = 0 ∨ (n < v.length ∧ v[n]? = some 37)) :=
+  C06Pos.checkPrintf_pos R v fs h
+
+/-- the offset of a `PrintfException`: a `%` of the value for "Found single %" / "Mixed ordered and non-ordered
+    args", 0 for "Ordered argument missing" -/
+theorem printf_exception_pos (v msg : Text) (pos : Nat) (h : getPrintfSpecs v = .error (.printf msg pos)) :
+    (pos < v.length ∧ v[pos]? = some 37 ∧ (msg = sFoundSingle ∨ msg = sMixed)) ∨
+    (pos = 0 ∧ msg = sOrderedMissing) := C06Pos.specs_error_pos v msg pos h
+
+/-- escape warnings point at the backslash in the RAW value; encoding warnings at the U+FFFD in `all` -/
+theorem escape_and_encoding_pos (e : Ents) :
+    (∀ f ∈ escapeWarnings e.l10nRaw, ∃ n, f.pos = .val n ∧ e.l10nRaw[n]? = some 92) ∧
+    (∀ f ∈ baseCheck e, ∃ n, f.pos = .ent n ∧ e.l10nAll[n]? = some 65533) :=
+  ⟨C06Pos.esc_pos e.l10nRaw, C06Pos.base_pos e⟩
+
+/-! ## 6. one checker instance for many entities (history independence)
+
+`PropertiesChecker` keeps `extra_tests`, `locale` and `reference`, none of which `check` writes; the model of a
+session is therefore the map of `check` over the entities.  The content of the statement is on the Python side:
+the harness runs sequences through ONE instance (also in reverse order, also with `extra_tests`/`set_reference`
+variants) and through fresh instances and compares with this model. -/
+
+/-- a session of one checker instance with locale `locale` over a sequence of entity pairs -/
+def checkSession (locale : Option Text) (es : List Ents) : List (Option (List Finding)) :=
+  es.map (fun e => check { e with locale := locale })
+
+/-- **history independence**: the result for the `i`-th pair of a session does not depend on the other pairs (nor
+    on their order): it is `check` of that pair alone; sessions over concatenated / permuted sequences are the
+    concatenated / permuted results. -/
+theorem session_history_independent (locale : Option Text) (es es' : List Ents) :
+    (∀ i (h : i < es.length), (checkSession locale es)[i]? = some (check { es[i] with locale := locale })) ∧
+    checkSession locale (es ++ es') = checkSession locale es ++ checkSession locale es' ∧
+    checkSession locale es.reverse = (checkSession locale es).reverse := by
+  refine ⟨fun i h => by simp [checkSession, h], by simp [checkSession], by simp [checkSession]⟩
+
+/-! ### non-vacuity and negation witnesses of round 4 -/
+
+-- "%1$S %% %2$d" tokenises as arg 1 / %% / arg 2 at offsets 0, 5, 8
+example : C06G.Lex 0 [37,49,36,83,32,37,37,32,37,50,36,100]
+    [(0, .arg (some 1) [83]), (5, .pct), (8, .arg (some 2) [100])] :=
+  C06G.lex_of_atoks (by decide +kernel)
+
+-- "%1 x": not `Separated`, but the grammar (and the lexer) say: a lone `%` at 0 — the case `WfRender` excluded
+example : C06G.Lex 0 [37,49,32,120] [(0, .lone)] := C06G.lex_of_atoks (by decide +kernel)
+
+-- `%%` after an ordered argument is neither an argument nor a style switch: "%1$S %%" against "%1$S" is silent
+example : checkPrintf [some [83]] [37,49,36,83,32,37,37] = some [] := by decide +kernel
+-- … and "%%%1$S" as well
+example : checkPrintf [some [83]] [37,37,37,49,36,83] = some [] := by decide +kernel
+
+-- the fast-path regression: reference [S], localization [S, d] is an error ("argument 2 `d` obsolete")
+example : ∃ msg, specsVerdict [some [83]] [some [83], some [100]] = some [⟨.error, .val 0, msg, .printf⟩] :=
+  ⟨_, specsVerdict_obsolete [some [83]] [some [100]] (by simp)⟩
+
+-- error and warning together: reference [S, d, x], localization [d]: "argument 1 missing" + trailing warning
+example : (specsVerdict [some [83], some [100], some [120]] [some [100]]).map (·.map (·.sev)) =
+    some [.error, .warning] := by decide +kernel
+
+-- the gate: "12" and "12\n" are numbers (no plural check), "12a", "", "1\n\n" and "٣x" are not; "٣" (Arabic-Indic) is
+example : C06Gate.NumericValue [49, 50] ∧ C06Gate.NumericValue [49, 50, 10] ∧ C06Gate.NumericValue [1635] :=
+  ⟨⟨[49, 50], by simp, by decide, Or.inl rfl⟩, ⟨[49, 50], by simp, by decide, Or.inr rfl⟩,
+   ⟨[1635], by simp, by decide, Or.inl rfl⟩⟩
+example : ¬ C06Gate.NumericValue [49, 50, 97] ∧ ¬ C06Gate.NumericValue [] ∧ ¬ C06Gate.NumericValue [49, 10, 10] := by
+  refine ⟨?_, ?_, ?_⟩ <;> rw [← C06Gate.numeric_iff] <;> decide +kernel
+
+-- every argument retyped and one dropped: reference [S, S, S], localization [d, d] → one error, no warning
+example : (specsVerdict [some [83], some [83], some [83]] [some [100], some [100]]).map (·.map (·.sev)) = some [.error] := by
+  rw [(verdict_all_retyped _ _ (by simp) (by simp) (by decide)).2]; rfl
+
+-- lookup: "zh-CN" → rule 0 by its own key; "zh", "zh-HK" → no rule; "en-GB" → rule of "en"; "pt-BR" → "pt"
+example : getPluralRule (some [122,104,45,67,78]) = some 0 ∧ getPluralRule (some [122,104]) = none ∧
+    getPluralRule (some [122,104,45,72,75]) = none ∧
+    getPluralRule (some [101,110,45,71,66]) = getPluralRule (some [101,110]) ∧
+    getPluralRule (some [101,110]) = some 1 := by decide +kernel
+
+-- negation witness for `Nodup` in `plural_rule_iff_generic`: with a repeated key the first entry wins
+example : C06P.ruleOf [([97], 1), ([97], 2)] (some [97]) = some 1 ∧ ([97], 2) ∈ [(([97] : Text), 1), ([97], 2)] := by
+  decide
+
+-- "#1 of #22;#3": variables 1, 22, 3 — per form [1, 22] and [3]
+example : C06P.LexP [35,49,32,111,102,32,35,50,50,59,35,51] [1, 22, 3] :=
+  C06P.lexP_of_pluralVars (by decide +kernel)
+
+-- a `#` that is not followed by a digit is no variable (the case `WfRenderP` excluded): "# #1"
+example : C06P.LexP [35,32,35,49] [1] := C06P.lexP_of_pluralVars (by decide +kernel)
+
+-- positions: "a %" has its lone % at offset 2
+example : (match getPrintfSpecs [97,32,37] with | .error (.printf _ 2) => true | _ => false) = true := by
   decide +kernel
 
 end C06
